@@ -110,20 +110,20 @@ def main(tier, seed, only=None):
             elif p['status'] == 'inconclusive':
                 inconclusive.append('%s: %s' % (name, (p['failed'] or [res['out'][-300:]])[0][:300]))
             else:
-                # counterexample: get concrete values and replay natively
-                pb = run_kani(name, timeout_s, playback=True)
-                vals = playback_values(pb['out'])
-                hc['counterexample_values'] = vals
+                # CBMC says the assertion can fail inside the harness domain: find and confirm the concrete input natively
                 try:
-                    cd, wd = confirm_native(name, vals, 'dev'); cr, wr = confirm_native(name, vals, 'release')
+                    found = {prof: native_scan(name, line, prof) for prof in ('dev', 'release')}
                 except Exception as e:
-                    inconclusive.append('%s: replay error %s (values %r)' % (name, e, vals)); continue
-                rec = {'property': PID, 'harness': name, 'oblig': '; '.join(p['failed'])[:200], 'case': {'kani_values': vals, 'show': {'values': vals}}, 'dev': wd, 'release': wr}
-                if cd or cr:
+                    inconclusive.append('%s: native scan error %s' % (name, e)); continue
+                hc['native_counterexample'] = found
+                if any(v for v in found.values()):
+                    vals = found['dev'] or found['release']
+                    rec = {'property': PID, 'harness': name, 'oblig': '; '.join(p['failed'])[:200], 'case': {'scan': scan_args(name, line), 'input': vals, 'show': {'harness': desc, 'input': vals}},
+                           'dev': 'deviates from the civil-calendar oracle at %s' % found['dev'] if found['dev'] else 'no deviation', 'release': 'deviates at %s' % found['release'] if found['release'] else 'no deviation'}
                     fn = os.path.join(OUT, PID, 'violation-%s-%s.json' % (name, hashlib.sha1(json.dumps(vals).encode()).hexdigest()[:10]))
                     json.dump(rec, open(fn, 'w'), indent=1); violations.append((fn, rec))
                 else:
-                    inconclusive.append('%s: CBMC counterexample %r did not reproduce natively (%s)' % (name, vals, wd))
+                    inconclusive.append('%s: CBMC reports a failing assertion (%s) but no input of the harness domain deviates natively' % (name, '; '.join(p['failed'])[:120]))
     cov['traces_validated_against_impl'] = len(violations)
     if not cov['samples']: cov['samples'] = [{'note': 'no harness verified'}]
     cov['states'] = max(cov['states'], 1); cov['transitions'] = max(cov['transitions'], 1)
@@ -136,8 +136,30 @@ def main(tier, seed, only=None):
     log('%s %s: exit %d (%.0fs)' % (PID, tier, rc, time.time() - t00))
     return rc
 
+def scan_args(name, line):
+    nums = [int(x) for x in re.findall(r'-?\d+', line.split('(', 1)[1].split(',', 1)[1])]
+    if name.startswith('to_serial_date'): return ['scan_dates', 'to_serial', nums[0], nums[1]]
+    if name.startswith('to_serial_monotone'): return None
+    if name.startswith('from_serial'): return ['scan_dates', 'from_serial', nums[0], nums[1]]
+    if name.startswith('roundtrip_hour_edges'): return ['scan_dates', 'edges', 0, 23, nums[0], nums[1], nums[2]]
+    if name.startswith('roundtrip_time'): return ['scan_dates', 'roundtrip', nums[3], nums[4], nums[0], nums[1], nums[2]]
+def native_scan(name, line, profile):
+    if name.startswith('to_serial_monotone'):
+        nums = [int(x) for x in re.findall(r'-?\d+', line.split('(', 1)[1].split(',', 1)[1])]
+        for y in range(nums[0], nums[1] + 1):
+            for (m, d) in ((1, 1), (2, 28), (3, 1), (12, 31)):
+                r = native.run_cases([['scan_dates', 'monotone', 0, 23, y, m, d]], profile, timeout_each=600)[0]
+                if r[0] != 'ok' or r[1][0] != 'none': return '%d-%d-%d %r' % (y, m, d, r[1])
+        return None
+    r = native.run_cases([scan_args(name, line)], profile, timeout_each=1800)[0]
+    if r[0] != 'ok': return '%s %s' % (r[0], r[1])
+    return None if r[1][0] == 'none' else r[1][0]
+
 class _Replay:
     def __init__(self, name): self.name = name
-    def confirm(self, case, profile): return confirm_native(self.name, case['kani_values'], profile)
+    def confirm(self, case, profile):
+        r = native.run_cases([case['scan']], profile, timeout_each=1800)[0]
+        bad = r[0] != 'ok' or r[1][0] != 'none'
+        return bad, 'native scan %r -> %r' % (case['scan'], r[1])
 def all_harnesses():
     return [_Replay(i[0]) for i in instances('quick') + instances('thorough')]
